@@ -36,3 +36,15 @@ package gzip
 //@   requires z != nil && z.Reader != nil && z.pool != nil
 //@   before sync.(*Pool).Put assert [C18.pool.reader] !z.Reader.busy
 //@   modifies z.Reader.busy, elems(p)
+
+// every pooled wrapper owns its own underlying compressor (see the snappy contract file)
+//@ func gzip.NewWriterLevel
+//@   assumed
+//@   results w, err
+//@   ensures err == nil ==> w != nil && fresh(w)
+//@   modifies nothing
+//@ func gzip.init.1$1
+//@   maypanic
+//@   requires *c != nil
+//@   ensures [C18.pool.own] typeIs(result, *writer) && asType(result, *writer) != nil && fresh(asType(result, *writer)) && asType(result, *writer).Writer != nil && fresh(asType(result, *writer).Writer)
+//@   modifies nothing
